@@ -7,6 +7,7 @@
    precondition is evaluated when it lands. *)
 From Coq Require Import ZArith List Bool Arith.
 Require Import DS.Model.CommitBase DS.Gen.GenCommit DS.Model.Commit DS.Proofs.CommitGenProofs DS.Proofs.CommitProofs.
+Require Import DS.Model.FlipFault DS.Proofs.FlipFaultProofs.
 Import ListNotations.
 Open Scope Z_scope.
 
@@ -81,6 +82,43 @@ Proof.
 Qed.
 Print Assumptions C08_cas_path_regenerated.
 
+(* ---- the pointer write itself FAILS (Model/FlipFault.v): the conditional PUT raises an error that is not the store's
+   refusal (read timeout, connection reset, 5xx ...), the store having applied it or not, anywhere in any interleaving with
+   other committers and with ANY lock behaviour; a request that lands after its client gave up is the same event placed
+   later in the schedule.  What the committer does next is computed from the two tables regenerated from the source
+   (gen_flip_exn: _write_hint_at_commit_point's classification; gen_tx_on: Transaction.commit's except-arms): *)
+Theorem C08_failed_flip_reaction_regenerated : forall atomic last,
+  flip_reaction true atomic FEError last = RRaise true            (* reported to the caller, files kept: never acknowledged, never retried *)
+  /\ flip_reaction true atomic FEPrecondition false = RRetry       (* the store's refusal: retried against a fresh base ... *)
+  /\ flip_reaction true atomic FEPrecondition true = RRaise false. (* ... until the attempt bound *)
+Proof. exact failed_flip_reaction. Qed.
+Print Assumptions C08_failed_flip_reaction_regenerated.
+
+(* ... every pointer replacement -- including those whose response was lost -- replaced exactly the version its committer
+   validated, the table is the serial application of the replacements, every acknowledged commit is among them, once *)
+Theorem C08_faulted_no_lost_update : forall c atomic m0 kind mr xs, cas c = true ->
+  let w := xw (xrun c atomic (xinit (init_world m0 kind mr)) xs) in
+  Forall (fun p => fst p = snd p) (w_repl w)
+  /\ m_ops (file w (w_ptr w)) = m_ops m0 ++ map snd (w_hist w)
+  /\ NoDup (map snd (w_hist w))
+  /\ (forall a, a_pc (w_actors w a) = PDone Success -> In a (map snd (w_hist w)))
+  /\ chain_ok (w_files w) 0%nat (w_hist w).
+Proof. exact faulted_no_lost_update. Qed.
+Print Assumptions C08_faulted_no_lost_update.
+
+(* ... and a committer whose pointer write raised is NEVER acknowledged, whatever the pointer says afterwards (another
+   committer may have landed a version with the same number meanwhile); once the exception has left commit() the
+   committer is finished, and its commit is in the table exactly when the store had applied its write *)
+Theorem C08_failed_write_never_acknowledged : forall c atomic m0 kind mr xs a, cas c = true ->
+  let X := xrun c atomic (xinit (init_world m0 kind mr)) xs in
+  In a (x_failed X) ->
+  a_pc (w_actors (xw X) a) <> PDone Success
+  /\ (x_err X a = None ->
+      (a_pc (w_actors (xw X) a) = PDone Aborted /\ ~ In a (map snd (w_hist (xw X))))
+      \/ (a_pc (w_actors (xw X) a) = PDone AbortedPost /\ In a (map snd (w_hist (xw X))))).
+Proof. exact failed_write_never_acknowledged. Qed.
+Print Assumptions C08_failed_write_never_acknowledged.
+
 (* Non-vacuity: CAS storage with a lock that grants everyone.  Both actors validate version 0;
    actor 1 flips first; actor 0's delayed conditional PUT then fails (its ETag names version 0),
    it retries on top of version 1, and both commits are reflected: nothing is lost.  A lease
@@ -105,3 +143,25 @@ Example C08_nonvacuous :
                                         ev 1 ESteal; ev 0 (EFence false); ev 0 ERelease]%nat 0 = inl w1
                  /\ a_pc (w_actors w1 0%nat) = PIdle /\ w_hist w1 = []).
 Proof. vm_compute. repeat split. eexists. repeat split. Qed.
+
+(* Non-vacuity of the failing-write theorems: both actors validate version 0 under a lock that grants everyone; actor 0's
+   conditional PUT raises WITHOUT having been applied, actor 1 lands its version (same number, other file) before actor 0's
+   exception has left commit(): actor 0 ends unacknowledged and not in the table.  Second schedule: actor 0's PUT raises
+   after having been APPLIED: unacknowledged, in the table once; actor 1's PUT is then refused and it retries. *)
+Definition xe a k := XE (ev a k).
+Example C08_failed_write_nonvacuous :
+  let c := {| cas := true; lockkind := GrantAll |} in
+  let pre := [ xe 0 (EBegin 0); xe 1 (EBegin 0); xe 0 (ELockTry true); xe 1 (ELockTry true);
+               xe 0 (EValidate 0 true); xe 1 (EValidate 0 true); xe 0 (EMetaW 100); xe 1 (EMetaW 100);
+               xe 0 (EFence true); xe 1 (EFence true) ]%nat in
+  (exists X, xrun_strict c false (xinit ex_init)
+               (pre ++ [ XFlipErr 0 false; xe 1 (EFlip true); xe 1 ERelease; XUnwind 0 ])%nat 0 = inl X
+     /\ x_failed X = [0]%nat /\ a_pc (w_actors (xw X) 0%nat) = PDone Aborted /\ a_pc (w_actors (xw X) 1%nat) = PDone Success
+     /\ map snd (w_hist (xw X)) = [1]%nat)
+  /\ (exists X, xrun_strict c false (xinit ex_init)
+               (pre ++ [ XFlipErr 0 true; xe 1 (EFlip false); XUnwind 0; xe 1 ERelease; xe 1 (EBegin 1) ])%nat 0 = inl X
+     /\ x_failed X = [0]%nat /\ a_pc (w_actors (xw X) 0%nat) = PDone AbortedPost /\ a_pc (w_actors (xw X) 1%nat) = PBegun
+     /\ map snd (w_hist (xw X)) = [0]%nat)
+  /\ (* an applied write cannot be claimed when the precondition does not hold at the store *)
+     (exists i, xrun_strict c false (xinit ex_init) (pre ++ [ xe 1 (EFlip true); XFlipErr 0 true ])%nat 0 = inr i).
+Proof. vm_compute. split; [|split]; eexists; repeat split. Qed.
